@@ -2,6 +2,7 @@
 """C17 — sorted_combinations / min_combinations_in_interval_iter_sorted: correspondence with Model/Generic.lean"""
 import itertools
 
+from .. import core
 from ..core import Case, err_name
 from ..seqcheck import SeqProp
 
@@ -186,6 +187,52 @@ class Prop(SeqProp):
                 exp = sorted((c, k) for c, k in allc if inside and k == min(inside))
                 if sorted(got) != exp or len(got) != len(exp):
                     return f"op {i} `{op}`: got {got}, brute force gives {exp}"
+        return None
+
+    # keys that are objects implementing `__lt__` only (what `windpyutils.typing.Comparable` asks for; equality is identity):
+    # ties are then broken by the heap alone, so the stream is judged by the oracle only, not compared with the model
+    def extra_scenarios(self, rng, tier):
+        n = {"quick": 150, "thorough": 1500}.get(tier, 400)
+        out = []
+        for _ in range(n):
+            m = rng.randint(0, 6)
+            hi = rng.choice([0, 1, 2, 5])
+            out.append({"kind": "lt-only-key", "scores": [rng.randint(0, hi) for _ in range(m)],
+                        "key": rng.choice(["sum", "max", "spread", "len", "const", "distinct"])})
+        return out
+
+    def run_extra(self, desc):
+        from windpyutils import generic as g
+
+        class LtOnly:
+            __slots__ = ("v",)
+
+            def __init__(self, v):
+                self.v = v
+
+            def __lt__(self, other):
+                return self.v < other.v
+
+        sc = desc["scores"]
+        kf = key_fn(desc["key"], sc)
+        limit = 2 ** len(sc) + 8
+        try:
+            got = core.call_with_alarm(lambda: list(itertools.islice(
+                g.sorted_combinations(range(len(sc)), lambda c: LtOnly(kf(c)), yield_key=True), limit)), 10.0)
+        except core.Timeout:
+            return f"sorted_combinations did not yield {limit} items within 10 s for scores {sc}, key {desc['key']} (objects with __lt__ only)"
+        except Exception as e:  # noqa
+            return f"sorted_combinations raised {err_name(e)} for scores {sc}, key {desc['key']} (objects with __lt__ only)"
+        allc = [c for r in range(1, len(sc) + 1) for c in itertools.combinations(range(len(sc)), r)]
+        combs = [c for c, _ in got]
+        if sorted(combs) != sorted(allc):
+            return (f"scores {sc}, key {desc['key']} given as objects with __lt__ only: yielded {combs[:40]}, not every non-empty "
+                    f"combination exactly once")
+        if any(k.v != kf(c) for c, k in got):
+            return f"scores {sc}, key {desc['key']}: a key alongside is not the key of its combination"
+        ks = [k.v for _, k in got]
+        if ks != sorted(ks):
+            return f"scores {sc}, key {desc['key']} (objects with __lt__ only): keys not non-decreasing: {ks}"
         return None
 
     def key(self, case, impl_out):
